@@ -360,10 +360,10 @@ class UseDepDefault(packages.PackageRestrictionMulti):
         if true_use:
             v.append(_UseDepDefaultContainment(if_missing, true_use))
 
-        l = len(v)
-        if l == 2:
+        # any number of parts: one per disabled flag plus one for the enabled flags
+        if len(v) > 1:
             v = values.AndRestriction(*v)
-        elif l == 1:
+        elif v:
             v = v[0]
         else:
             v = values.AlwaysTrue
